@@ -95,6 +95,18 @@ def make_values(rng, profile, n, le, re_):
             v = rng.choice([-1, 1]) * float(2.0 ** -rng.choice([20, 60, 100, 120]))
         elif profile == 'negative':
             v = -abs(dyadic(rng, lo, hi)) - 0.125
+        elif profile == 'offgap':
+            # on scale, on scale, far off scale, absent, absent, on scale again, ... : the value before a run of absent values is one that a
+            # curve without (enough) back-up does not draw
+            ph = i % 6
+            if ph in (3, 4):
+                vals.append(None)
+                continue
+            if ph == 2:
+                # (exactly representable in code 68: a power of two beyond 2.5 scale widths, or a multiple of 1/8)
+                v = float(2 ** math.ceil(math.log2(hi * (hi / lo) ** 1.5))) if lo > 0 else math.floor((hi + 2.5 * span) * 8) / 8.0
+            else:
+                v = dyadic(rng, lo, hi)
         else:
             raise ValueError(profile)
         vals.append(float(v))
@@ -114,7 +126,7 @@ def build_log_pass(rng, names, profiles, scales, n, up, xunits=b'FEET', absent=-
     dx = (-1 if up else 1) * {b'FEET': 0.5, b'.1IN': 60.0, b'M   ': 0.25}[xunits]          # multiples of 0.01 so that the 1e-2 quantisation of x is exact
     cols = []
     for nm, prof, (le, re_) in zip(names, profiles, scales):
-        vals = make_values(rng, prof['kind'], n, le, re_)
+        vals = [absent if v_ is None else v_ for v_ in make_values(rng, prof['kind'], n, le, re_)]
         if prof['absent']:
             k = rng.randrange(n)
             for j in range(k, min(n, k + rng.choice([1, 1, 2, 4]))):
@@ -441,6 +453,9 @@ def run(ctx):
         profs = [dict(kind=rng.choice(profiles), absent=rng.random() < 0.5) for _ in outs]
         if not use_xml and pi % 8 in (0, 5):
             profs = [dict(kind=rng.choice(['ramp', 'spiky', 'ramp']), absent=rng.random() < 0.3) for _ in outs]
+            profs[0] = dict(kind='offgap', absent=False)          # (every tier: off scale, then absent, on a curve without back-up)
+        if not use_xml and pi % 8 == 2:
+            profs[0] = dict(kind='offgap', absent=False)          # ... and on whatever back-up mode the first output's curves drew
         case['profiles'] = [(p['kind'], p['absent']) for p in profs]
         # the frames' X units and the units the plot range is asked in are independent
         xunits, runits = rng.choice([(b'FEET', b'FEET'), (b'FEET', b'FEET'), (b'.1IN', b'FEET'), (b'FEET', b'.1IN'), (b'.1IN', b'.1IN'), (b'M   ', b'M   ')])
